@@ -33,6 +33,7 @@ import (
 	"fmt"
 	"net"
 	"os"
+	"path/filepath"
 	"strings"
 	"sync"
 	"time"
@@ -233,15 +234,21 @@ func setupFile(v6 bool, args ...string) (handler.Handler6, handler.Handler4, err
 			return nil, nil, fmt.Errorf("failed to create watcher: %w", err)
 		}
 
-		// have file watcher watch over lease file
-		if err = watcher.Add(filename); err != nil {
+		// have file watcher watch over the directory of the lease file, not the
+		// file itself: a watch on the file follows the inode, so it is lost as
+		// soon as the file is replaced (an editor or `mv` renaming a new file
+		// over it, unlink and create), and later updates would go unnoticed
+		if err = watcher.Add(filepath.Dir(filename)); err != nil {
 			return nil, nil, fmt.Errorf("failed to watch %s: %w", filename, err)
 		}
 
 		// very simple watcher on the lease file to trigger a refresh on any event
 		// on the file
 		go func() {
-			for range watcher.Events {
+			for event := range watcher.Events {
+				if filepath.Clean(event.Name) != filepath.Clean(filename) {
+					continue
+				}
 				err := loadFromFile(v6, filename)
 				if err != nil {
 					log.Warningf("failed to refresh from %s: %s", filename, err)
